@@ -40,6 +40,12 @@ var c13Served = func(run *report.Run, env *Env) {
 			for _, name := range []string{"openapi.yaml", "spec.json"} {
 				add(fmt.Sprintf("served:doc%d:base=%s:name=%s", i, bn, name), baseDoc, raw, cells.BaseFormByName(bn), name)
 			}
+			// spec names that URL escaping would change: the route is compared with the decoded request path
+			if i == 0 && (bn == "none" || bn == "v1") {
+				for _, name := range []string{"pet shop.yaml", "späc.yaml", "a+b.yaml"} {
+					add(fmt.Sprintf("served:doc%d:base=%s:name=%s", i, bn, name), baseDoc, raw, cells.BaseFormByName(bn), name)
+				}
+			}
 		}
 	}
 	// operations whose templates also match the spec URL: the spec route still wins
